@@ -127,6 +127,18 @@ CLAIMED = {
    note="Trusted: Coq kernel; translator for bitmap constants and operation shapes; free list / catalog / counters only through SQL answers.",
    technique="Coq proof (bit-level bitmap = set; refutation witness) + regenerated constants + differential correspondence (SQL reopen histories, header facade)",
    design="7 (C09)"),
+ "C15": dict(
+   text="Props/C15.v: in the reference, DDL is transactional (a session that does not commit can be erased from any history "
+        "whatever it created, dropped or altered; a failing DDL statement changes nothing - C15_transactional) and the catalog is "
+        "coherent (C15_catalog): no statement disturbs another table (frame theorem over every statement kind), CREATE succeeds "
+        "exactly on a free name with the declared shape, DROP exactly on an existing one and frees the name for any new shape, "
+        "ADD COLUMN keeps rows and reads default/NULL, DROP COLUMN removes exactly that position.  The engine is tied on every run "
+        "by histories over reused table names with DDL and DML in committed and rolled-back sessions and reopen, with a "
+        "model-independent before/after oracle.  ADD COLUMN, DROP COLUMN, schema changes in rolled-back transactions and "
+        "drop-then-recreate in a rolled-back transaction are recorded findings; ignored DEFAULTs were fixed.",
+   note="Trusted: Coq kernel; RefDB as specification; DdlExecutor / catalog tied by correspondence only.",
+   technique="Coq proof (frame and per-statement catalog laws, history erasure) + differential correspondence with before/after oracle",
+   design="7 (C15)"),
 }
 NOT_YET = "not claimed yet: model and proofs under construction in this session (see DESIGN.md section 10, build order)"
 
